@@ -114,7 +114,7 @@ class Eval:
             return mul(I(-1), t_) if e["op"] == "-" else t_
         if k == "Ref" and e.get("n") in env:
             return env[e["n"]]
-        el = self.element(e)
+        el = self.element(e, env)
         if el is not None:
             return env.get(el, S("?" + el))
         if k == "Ref" and "ev" in e:
@@ -156,7 +156,7 @@ class Eval:
             return S("?" + e.get("n", ""))
         return None
 
-    def element(self, e):
+    def element(self, e, env=None):
         """'name[k]' for a constant-index element of a tracked local array, else None"""
         e = strip(e)
         base = idx = None
@@ -164,8 +164,13 @@ class Eval:
             base, idx = strip(e["c"][0]), strip(e["c"][1])
         elif e.get("k") == "OpCall" and e.get("op") == "[]" and len(e.get("a") or []) == 2:
             base, idx = strip(e["a"][0]), strip(e["a"][1])
-        if base is not None and base.get("k") == "Ref" and base.get("n") in self.locals and idx.get("k") == "Int":
-            return "%s[%d]" % (base["n"], int(idx["v"]))
+        if base is not None and base.get("k") == "Ref" and base.get("n") in self.locals:
+            if idx.get("k") == "Int":
+                return "%s[%d]" % (base["n"], int(idx["v"]))
+            if env is not None:
+                t = self.term(idx, env)
+                if t is not None and t[0] == "int":
+                    return "%s[%d]" % (base["n"], t[1])
         return None
 
     def run(self, stmts, env):
@@ -177,8 +182,8 @@ class Eval:
                 for v in st["vars"]:
                     if v["n"] in self.locals:
                         env[v["n"]] = self.term(v["init"], env) if isinstance(v.get("init"), dict) else S("uninit:" + v["n"])
-            elif k == "Bin" and st.get("asg") and (self.element(st["c"][0]) or (strip(st["c"][0]).get("k") == "Ref" and strip(st["c"][0])["n"] in self.locals)):
-                nm = self.element(st["c"][0]) or strip(st["c"][0])["n"]
+            elif k == "Bin" and st.get("asg") and (self.element(st["c"][0], env) or (strip(st["c"][0]).get("k") == "Ref" and strip(st["c"][0])["n"] in self.locals)):
+                nm = self.element(st["c"][0], env) or strip(st["c"][0])["n"]
                 rhs = self.term(st["c"][1], env)
                 if st["op"] == "=":
                     env[nm] = rhs
